@@ -103,6 +103,22 @@ func TestE2E(t *testing.T) {
 		_ = os.WriteFile(current, []byte(c.Encode()), 0o644)
 		cases = append(cases, c.Encode())
 		impl = append(impl, runCase(t, c, ropts)...)
+		if os.Getenv("VERIF_FAULTS") != "" {
+			// the same history with store operations failing (monitor only: the model's store does not fail)
+			for rep := 0; rep < 2; rep++ {
+				fc := *c
+				fc.ID = fmt.Sprintf("%s~f%d", c.ID, rep)
+				fc.Stream = "W"
+				fc.Faults = nil
+				nf := 1 + g.intn(4)
+				for j := 0; j < nf; j++ {
+					fc.Faults = append(fc.Faults, FaultSpec{N: g.intn(6 * len(c.Reqs)), Kind: g.pick("err", "err", "garbage", "null", "trunc")})
+				}
+				_ = os.WriteFile(current, []byte(fc.Encode()), 0o644)
+				cases = append(cases, fc.Encode())
+				impl = append(impl, runCase(t, &fc, ropts)...)
+			}
+		}
 		if os.Getenv("VERIF_TWINS") != "" {
 			// the same history with every respelled Cache-Control field in its canonical spelling (C12)
 			if tw := canonTwin(g, c); tw != nil {
